@@ -156,26 +156,57 @@ def field_flag(db, ctx):
 @rule("C05.len-prefix", "string length prefix: writer constants (one byte iff len<W, 0x80 marker, shift 8, reject >i16::MAX) and reader "
                         "constants (two bytes iff first>=R, mask 0x7F, shift 8) are mutually consistent")
 def len_prefix(db, ctx):
+    from ..flow import var_evaluator, holds_at
+    from ..db import path_conditions, deref_all, peel_casts
     w = db.one("write_len", "Utf16Writer")
+    # W by value points: the smallest length for which the one-byte write is no longer reachable and the two-byte write is —
+    # whichever way the decision is written (`<`, `>=` with swapped branches, a named constant, a named boolean)
+    len_lids = {p_.get("lid") for p_ in (w.info.get("params") or []) if isinstance(p_, dict) and p_.get("name") != "self" and "usize" in (p_.get("ty") or "")}
+
+    def is_len(e):
+        d = deref_all(e)
+        d = peel_casts(d) if isinstance(d, dict) else d
+        return isinstance(d, dict) and d.get("k") == "Path" and d.get("res") == "local" and d.get("lid") in len_lids
+    sites = {1: [], 2: []}
+    for c, _ in walk(w.hir):
+        if c.get("k") == "MethodCall" and c.get("method") == "write_all" and c.get("args"):
+            a_ = peel(deref_all(c["args"][0]))
+            if isinstance(a_, dict) and a_.get("k") == "Array" and len(a_["elems"]) in sites:
+                sites[len(a_["elems"])].append(c)
+
+    def reach(arity, v):
+        rs = [holds_at(path_conditions(c["id"], w.hir), var_evaluator(is_len, v)) for c in sites[arity]]
+        return any(r is not False for r in rs)        # a guard that does not mention the length (the i16::MAX rejection) stays open
     W = None
+    pts = list(range(0, 300)) + [32767, 32768]
+    prof = [(v, reach(1, v), reach(2, v)) for v in pts] if sites[1] and sites[2] else []
+    if prof and not any(o and t for _, o, t in prof):          # never both; neither = the length is rejected
+        flips = [v for (v, o, _), (_, o0, _) in zip(prof[1:], prof[:-1]) if o != o0]
+        if len(flips) == 1 and prof[0][1] is True and dict((v, t) for v, _, t in prof)[flips[0]] is True:
+            W = flips[0]
     marker = wshift = None
     for n, _ in walk(w.hir):
-        if n.get("k") == "If":
-            c = cmp_atom(n["cond"])
-            if c and c[0] == "Lt" and local_name(c[1]) == "length" and lit_int(c[2]) is not None:
-                W = lit_int(c[2])
-        if n.get("k") == "Binary" and n.get("op") == "BitOr" and lit_int(n["r"]) is not None:
-            marker = lit_int(n["r"])
+        if n.get("k") == "Binary" and n.get("op") == "BitOr":
+            for side in ("l", "r"):
+                if lit_int(n[side]) is not None:
+                    marker = lit_int(n[side])
         if n.get("k") == "Binary" and n.get("op") == "Shr" and lit_int(n["r"]) is not None:
             wshift = lit_int(n["r"])
     r = db.one("string_length_parser", None)
     R = mask = rshift = None
     for n, _ in walk(r.hir):
         c = cmp_atom(n) if n.get("k") == "Binary" else None
-        if c and c[0] == "Ge" and lit_int(c[2]) is not None:
-            R = lit_int(c[2])
-        if n.get("k") == "Binary" and n.get("op") == "BitAnd" and lit_int(n["r"]) is not None:
-            mask = lit_int(n["r"])
+        if c:
+            op, l_, r_ = c
+            lk, rk = lit_int(l_), lit_int(r_)
+            # two bytes iff first >= R, in any of its spellings
+            thr = {("Ge", 1): rk, ("Gt", 1): None if rk is None else rk + 1, ("Le", 0): lk, ("Lt", 0): None if lk is None else lk + 1}.get((op, 1 if rk is not None else 0))
+            if thr is not None:
+                R = thr
+        if n.get("k") == "Binary" and n.get("op") == "BitAnd":
+            for side in ("l", "r"):
+                if lit_int(n[side]) is not None:
+                    mask = lit_int(n[side])
         if n.get("k") == "Binary" and n.get("op") == "Shl" and lit_int(n["r"]) is not None:
             rshift = lit_int(n["r"])
     ok = None not in (W, R, marker, wshift, mask, rshift) and W <= R <= 128 and marker == 0x80 and mask == 0x7F and wshift == 8 and rshift == 8
@@ -289,8 +320,14 @@ def align_guard(db, ctx):
         ok2 = any(isinstance(cn, dict) and pol is False and mentions(cn, is_call_to("is_aligned")) for cn, pol in pcs2)
     ctx.ob("from_bytes|copy-when-unaligned", ok2, "copy_of_bytes is used in the unaligned branch: %s" % ok2, fn=f)
     ia = db.one("is_aligned", None)
-    body = render(ia.hir)
-    ctx.ob("is_aligned|modulo", "% alignment) == 0" in body, "is_aligned is `offset %% alignment == 0`: %s" % body[-60:], fn=ia)
+    # by value: constant folding of the predicate at probe points (offset, alignment) — any spelling of `offset % alignment == 0`
+    # (`&(alignment-1)`, swapped operands, named temporaries) gives the same table
+    from ..flow import pure_eval
+    probes = [(0, 8), (8, 8), (4, 8), (12, 4), (13, 4), (7, 1), (2, 2), (3, 2), (1 << 20, 4), ((1 << 20) + 2, 4), (6, 4), (16, 8), (20, 8)]
+    got = [pure_eval(db, ia, list(pr)) for pr in probes]
+    want = [o % a_ == 0 for o, a_ in probes]
+    ctx.ob("is_aligned|modulo", got == want, "is_aligned(offset, alignment) at %d probe points: %s (must be offset %% alignment == 0)" % (
+        len(probes), "as required" if got == want else [(pr, g) for pr, g, w in zip(probes, got, want) if g != w][:4]), fn=ia)
     cb = db.one("copy_of_bytes", None)
     ctx.ob("copy_of_bytes|from_le_bytes", mentions(cb.hir, is_call_to("from_le_bytes")), "copy_of_bytes decodes with ReadLE::from_le_bytes", fn=cb)
     al = any(is_call(c3) and path_ends(callee(c3), "mem::align_of") for c3, _ in walk(f.hir))
@@ -474,3 +511,80 @@ def header_block(db, ctx):
     ints = [nf(deref_all(c["args"][0])) for c in wr]
     ctx.ob("Header::write_to|ints", any("self.version.to_u64().to_le_bytes()" == x for x in ints) and any("self.create_time.to_le_bytes()" == x for x in ints),
            "version and create_time are written with to_le_bytes: %s" % [x for x in ints if "to_le_bytes" in x], fn=f)
+
+
+@rule("C05.dic-form-marker", "the stored dictionary-form reference is resolved for EVERY word id (0 included): only the marker -1 means 'no dictionary form'. "
+                             "WordInfos::get_word_info reaches the look-up of the referenced entry when the id is 0 or positive and never when it is -1")
+def dic_form_marker(db, ctx):
+    from ..flow import var_evaluator, holds_at
+    from ..db import deref_all
+    f = db.view(db.one("get_word_info", "WordInfos"))
+
+    def is_ref(e):
+        d = deref_all(e)
+        d = peel_casts(d) if isinstance(d, dict) else d
+        return isinstance(d, dict) and d.get("k") == "Field" and d.get("name") == "dictionary_form_word_id"
+    # the site is the store into WordInfo.dictionary_form (wherever the referenced entry is parsed: inline or in a helper)
+    sites = [n for n, _ in walk(f.hir) if n.get("k") == "Assign" and peel(n["l"]).get("k") == "Field" and peel(n["l"]).get("name") == "dictionary_form"]
+    if not sites:
+        raise AnchorMissing("get_word_info: look-up of the dictionary-form entry")
+    for c in sites:
+        pcs = path_conditions(c["id"], f.hir) or []
+        from ..flow import with_selected_patterns
+        prof = {v: holds_at(pcs, with_selected_patterns(db, f, var_evaluator(is_ref, v))) for v in (-1, 0, 1, 2147483647)}
+        ok = prof[-1] is False and all(prof[v] is not False for v in (0, 1, 2147483647))
+        ctx.ob("get_word_info|resolved-iff-not-marker", ok,
+               "look-up of the dictionary-form entry is reachable at id = -1 / 0 / 1 / i32::MAX: %s (must be no / yes / yes / yes)" % (
+                   [("no" if prof[v] is False else "yes") for v in (-1, 0, 1, 2147483647)]), fn=f, site=c.get("sp"))
+    ctx.floor(1)
+
+
+# csv::ReaderBuilder setters: the argument (rendered, refs dropped) with which the setter leaves every data row untouched and
+# positioned; None = the setter is not acceptable with any argument the checker can decide
+_CSV_NEUTRAL = {
+    "has_headers": ("false",),            # REQUIRED: the default (true) swallows the first entry and shifts every word id
+    "flexible": ("true",),                # REQUIRED: rows have 18 or 19 columns
+    "trim": ("Trim::None", "csv::Trim::None"),
+    "comment": ("None", "v1::None", "Option::None"),
+    "delimiter": ("b','", "44"),
+    "quote": ("b'\\\"'", "b'\"'", "34"),
+    "double_quote": ("true",),
+    "quoting": ("true",),
+    "escape": ("None", "v1::None", "Option::None"),
+    "buffer_capacity": None,
+}
+_CSV_REQUIRED = ("has_headers", "flexible")
+
+
+@rule("C05.csv-rows", "every row of the lexicon CSV becomes an entry, in order: the csv reader of LexiconReader is configured so that no row is swallowed "
+                      "or altered (no header row, no comment character, no trimming, standard delimiter / quoting, flexible column count) — word ids are "
+                      "row positions, so one dropped row shifts every later split / dictionary-form reference")
+def csv_rows(db, ctx):
+    from ..loops import chain
+    n = 0
+    for f in db.fns.values():
+        if not f.hir or "::tests::" in f.key or not f.key.startswith("sudachi::dic::build"):
+            continue
+        for c, _ in walk(f.hir):
+            if not (is_call(c) and "ReaderBuilder::from_" in (callee(c) or "")):
+                continue
+            n += 1
+            names, base = chain(db, f, c)
+            seen = {}
+            bad = []
+            for m, cc in names:
+                if m.startswith("from_") or m == "new":
+                    continue
+                arg = render(peel(cc["args"][0])) if cc.get("args") else ""
+                seen[m] = arg
+                ok_args = _CSV_NEUTRAL.get(m, ())
+                if m == "buffer_capacity":
+                    continue
+                if not ok_args or arg not in ok_args:
+                    bad.append("%s(%s)" % (m, arg))
+            missing = [m for m in _CSV_REQUIRED if m not in seen]
+            ctx.ob("%s|csv-config" % f.short(), not bad and not missing,
+                   "csv reader settings that drop / alter rows: %s; required settings missing: %s (seen: %s)" % (bad, missing, seen), fn=f, site=c.get("sp"))
+    if not n:
+        raise AnchorMissing("dic::build: csv::ReaderBuilder::from_reader")
+    ctx.floor(1)
